@@ -14,6 +14,7 @@ import Qryn.Proofs.ProfSelector
 import Qryn.Prof.SelectorCtx
 import Qryn.Proofs.ConfineTempo
 import Qryn.Proofs.ConfineProf
+import Qryn.Proofs.Tail
 import Qryn.Gen.VersionSites
 /-! # C13 — every read is confined to the requested time window and signal type
 
@@ -560,5 +561,33 @@ theorem prof_series_confined (cfg : Cfg) (c : PCtx) (h : ProfCfg cfg c) (labels 
 theorem prof_labels_confined (cfg : Cfg) (c : PCtx) (h : ProfCfg cfg c) (col : String) (label : Option Bytes) :
     confined cfg (winProf c) (labelsNoSel c col label) = true :=
   (labelsNoSel_good cfg c h col label).confined
+
+end Qryn.C13
+
+/-! ## the Loki tail (`QueryRangeService.Tail`): one `planLog` statement per tick, for the window `[from, now)` -/
+namespace Qryn.C13
+open Qryn Qryn.Sql Qryn.LogQL Qryn.Confine
+
+/-- the planner context `Tail` hands to the log planner at a tick: `From = from`, `To = time.Now()`, `Limit = 0`,
+    `OrderASC = false`, `Type = 0`; tables and layout of the connection -/
+def tailCtx (base : Ctx) (from_ now : Int) : Ctx :=
+  { base with fromNs := from_, toNs := now, limit := 0, orderAsc := false, tp := 0 }
+
+/-- **tail_scans_confined.** Whatever the earlier ticks returned (`results` = the entry timestamps of each tick's result,
+    in result order), the statement of every tick is the log planner's statement for the window `[from, now)` of that
+    tick — hence confined to it, samples by exact timestamp bounds, index by the covering date bound, both with the
+    logs-or-both type filter (`all_scans_confined_logql`) — and `from` never moves back before the `from` of the first
+    tick (start of the tail − 5 min): a tail never reads older data than its first window. -/
+theorem tail_scans_confined (cfg : Cfg) (base : Ctx) (h : LokiCfg cfg base) (q : LogQuery) (from0 : Int) (results : List (List Int)) :
+    ∀ f ∈ Tail.froms from0 results, from0 ≤ f ∧
+      ∀ now, confined cfg (winOf (tailCtx base f now)) (planLog (tailCtx base f now) q) = true := by
+  intro f hf
+  refine ⟨Tail.froms_ge from0 results f hf, fun now => ?_⟩
+  exact planLog_confined cfg (tailCtx base f now) ⟨h.samples, h.gin, h.ts, h.tsDist⟩ q
+
+/-- **tail_from_advances.** `from` after a tick: not before the old one, and not before any entry of the result. -/
+theorem tail_from_advances (from_ : Int) (tss : List Int) :
+    from_ ≤ Tail.advance from_ tss ∧ ∀ t ∈ tss, t ≤ Tail.advance from_ tss :=
+  ⟨Tail.advance_ge from_ tss, Tail.advance_covers from_ tss⟩
 
 end Qryn.C13
